@@ -130,6 +130,17 @@ def assignToPointer (t : Ty) (e : Operand) : Bool :=
      | _ => false)
   | _ => false
 
+/-- 6.5.16.1p1 (simple assignment; by 6.7.9p11, 6.5.2.2p2/p7 and 6.8.6.4p3 also initialisation of a
+scalar, argument passing and `return`): arithmetic ← arithmetic; structure or union ← compatible
+type; the pointer cases of `assignToPointer`; `_Bool` ← pointer; C23: `nullptr_t` ← null pointer
+constant, `_Bool` ← `nullptr_t` -/
+def simpleAssign (t : Ty) (e : Operand) : Bool :=
+  (t.isArith && e.ty.isArith) ||
+  (t.isStructUnion && compatible t e.ty) ||
+  assignToPointer t e ||
+  (t == .arith (.basic .bool) && (e.ty.isPtr || e.ty == .nullptr)) ||
+  (t == .nullptr && e.nullconst)
+
 /-- 6.5.2.2p1-2: the called expression is a pointer to function; "the number of arguments shall
 agree with the number of parameters" (at least as many for a prototype ending in an ellipsis) -/
 def call (f : Operand) (nargs : Nat) : Bool :=
